@@ -501,9 +501,7 @@ static bool opMut(HxLine& l)
   {
     ValArg a;
     if(!parseValArg(l, 4, a)) return false;
-    // precondition mutOk of the model (conservative here: the temporary is built before the accessor chain, so the real
-    // code is correct); `mutx` runs the line all the same — explored against the value reference only
-    if(n > 0 && a.usesVar[v] && strcmp(l.tok[0], "mutx") != 0) return false;
+    // (a temporary that contains var[v] itself is fine at any path: it was built above, before the accessor chain runs)
     if(a.kind == 0 && a.lit.isNull()) return false;    // no typed operator= for null
     if(!cx) return false;
     Variant& x = *walkMut(var[v], steps, n);
@@ -678,7 +676,7 @@ int main()
     int v, w;
     if(hxIs(l, "reset", 0)) { resetAll(); ok = true; }
     else if(strcmp(l.tok[0], "new") == 0) ok = opNew(l);
-    else if(strcmp(l.tok[0], "mut") == 0 || strcmp(l.tok[0], "mutx") == 0) ok = opMut(l);
+    else if(strcmp(l.tok[0], "mut") == 0) ok = opMut(l);
     else if(strcmp(l.tok[0], "get") == 0) ok = opGet(l);
     else if(hxIs(l, "copy", 2))
     {
